@@ -152,42 +152,45 @@ Qed.
 (* ---------------------------------------------------------------- non-vacuity of the schema-wide theorems *)
 Definition p_color : path := ["color"].
 Definition p_color0 : path := ["display"; "style"; "base"; "color"].
-Definition p_blabel : path := ["display"; "style"; "base"; "label"].
+Definition p_blabel : path := ["display"; "style"; "markers"; "color"].
+
+Definition p_asize0 : path := ["magnetization"; "arrow"; "size"].
+Definition p_mshow : path := ["magnetization"; "show"].
 
 Lemma nv1 : exists cs p k al, In cs style_classes /\ In (p, k, al) (sleaves (snd cs)) /\
-                     shadowed (snd cs) p = false /\ two k <> [] /\ notations p <> [] /\ bad_vals k <> [].
+                     shadowed (snd cs) p = true /\ two k <> [] /\ notations p <> [] /\ bad_vals k <> [].
 Proof.
-  exists ("MagnetStyle", schema_MagnetStyle), p_color, KColor, false.
+  exists ("MagnetStyle", schema_MagnetStyle), p_asize0, KNumGe0, false.
   split; [right; left; reflexivity|].
-  split; [apply (nth_error_In _ (leaf_index schema_MagnetStyle p_color)); vm_compute; reflexivity|].
+  split; [apply (nth_error_In _ (leaf_index schema_MagnetStyle p_asize0)); vm_compute; reflexivity|].
   split; [vm_compute; reflexivity|]. split; [vm_compute; congruence|]. split; vm_compute; congruence.
 Qed.
 
 Lemma nv2 : exists p k al, In (p, k, al) (sleaves defaults_schema) /\ in_literal p = true /\
-                  shadowed defaults_schema p = false /\ two k <> [] /\ notations_coarse p <> [].
+                  two k <> [] /\ notations_coarse p <> [].
 Proof.
   exists p_color0, KColor, false.
   split; [apply (nth_error_In _ (leaf_index defaults_schema p_color0)); vm_compute; reflexivity|].
-  split; [vm_compute; reflexivity|]. split; [vm_compute; reflexivity|]. split; vm_compute; congruence.
+  split; [vm_compute; reflexivity|]. split; vm_compute; congruence.
 Qed.
 
 Lemma nv3 : exists p k al, In (p, k, al) (sleaves defaults_schema) /\ in_literal p = false /\ two k <> [].
 Proof.
-  exists p_blabel, KToStr, false.
+  exists p_blabel, KColor, false.
   split; [apply (nth_error_In _ (leaf_index defaults_schema p_blabel)); vm_compute; reflexivity|].
   split; [vm_compute; reflexivity|vm_compute; congruence].
 Qed.
 
 Lemma nv4 : exists cls p k, In cls public_classes /\ In (p, k, false) (sleaves (class_schema cls)) /\
-                   prec_leaf k p = true /\ shadowed (class_schema cls) p = false.
+                   prec_leaf k p = true /\ (2 <= List.length (spec_families cls p))%nat.
 Proof.
-  exists "Cuboid", p_color, KColor.
-  split; [left; reflexivity|].
-  split; [apply (nth_error_In _ (leaf_index (class_schema "Cuboid") p_color)); vm_compute; reflexivity|].
-  split; vm_compute; reflexivity.
+  exists "TriangularMesh", p_mshow, KBool.
+  split; [vm_compute; tauto|].
+  split; [apply (nth_error_In _ (leaf_index (class_schema "TriangularMesh") p_mshow)); vm_compute; reflexivity|].
+  split; [vm_compute; reflexivity|]. vm_compute. apply le_n.
 Qed.
 
-Lemma nv5 : all_sources <> [] /\ prec_variants <> [] /\ ctor_style <> [].
-Proof. split; [|split]; vm_compute; congruence. Qed.
+Lemma nv5 : all_sources <> [] /\ gen_sources <> [] /\ prec_variants <> [] /\ ctor_style <> [].
+Proof. split; [|split; [|split]]; vm_compute; congruence. Qed.
 
 Definition c20_nonvacuous_proof := conj nv1 (conj nv2 (conj nv3 (conj nv4 nv5))).
